@@ -14,6 +14,7 @@ import (
 	"github.com/wader/fq/internal/verif/dsl"
 	"github.com/wader/fq/pkg/bitio"
 	"github.com/wader/fq/pkg/decode"
+	"github.com/wader/fq/pkg/interp"
 	"github.com/wader/fq/pkg/scalar"
 )
 
@@ -210,6 +211,7 @@ func trees(r *core.Run) {
 		})
 		r.Section("trees-dsl")
 		layouts(r, &evals)
+		bitWindows(r, &evals)
 	}
 	if os.Getenv("VERIF_ONLY") != "dsl" {
 		maxSize := int64(core.Pick(r, 1<<18, 0))
@@ -258,11 +260,54 @@ func replayTree(r *core.Run, raw json.RawMessage) bool {
 		d := v.Apply(data)
 		f := corpus.File{Path: c.File}
 		fs = judgeCorpusTree(corpus.Item{File: &f, Format: c.Format, Variant: v, Data: d, Res: corpus.Decode(d, c.Format, false, 60*time.Second)})
+	case "bitwindow":
+		fs = judgeBitWindow(c.Format, int64(c.At))
 	}
 	for _, f := range fs {
 		fmt.Printf("  %s %s\n", f.sig, f.msg)
 	}
 	return len(fs) > 0
+}
+
+// bitWindows: the formats whose root is one scalar over the whole buffer (bits, bytes)
+// decoded over buffers of every bit length 0..40, not only whole bytes (a bit slice of a
+// binary, a bit field handed to decode): the scalar root has to span the buffer, there is
+// nowhere else a left over bit could be accounted for.
+var bitWindowData = []byte{0xa7, 0x3c, 0xd1, 0x6b, 0xe2}
+
+func judgeBitWindow(format string, n int64) []finding {
+	g, err := interp.DefaultRegistry.Group(format)
+	if err != nil {
+		return nil
+	}
+	var dv *decode.Value
+	pv, _ := core.Protect(func() {
+		dv, _, _ = decode.Decode(context.Background(), bitio.NewBitReader(bitWindowData, n), g, decode.Options{IsRoot: true, FillGaps: true})
+	})
+	if pv != nil || dv == nil {
+		return nil // C06 territory
+	}
+	it := corpus.Item{File: &corpus.File{Path: fmt.Sprintf("(first %d bits of %x)", n, bitWindowData)}, Format: format, Res: corpus.Result{Value: dv}}
+	return judgeCorpusTree(it)
+}
+
+func bitWindows(r *core.Run, evals *int64) {
+	for _, f := range []string{"bits", "bytes"} {
+		for n := int64(0); n <= 40; n++ {
+			if !r.Mine(int64(len(f))*1000 + n) {
+				continue
+			}
+			*evals++
+			r.Count("bit_window_decodes", 1)
+			if n%8 != 0 {
+				r.Nontrivial(fmt.Sprintf("bitwindow:%s:%d", f, n))
+			}
+			for _, fd := range judgeBitWindow(f, n) {
+				r.Violate(fd.sig, fmt.Sprintf("decode of the first %d bits of %x as %s: %s", n, bitWindowData, f, fd.msg), TreeCase{Kind: "bitwindow", Format: f, At: int(n)})
+			}
+		}
+	}
+	r.Section("trees-bit-windows")
 }
 
 // layouts: leaves placed explicitly. A struct or an array of three fields, each read
